@@ -687,3 +687,222 @@ func copyObjSet(m map[types.Object]bool) map[types.Object]bool {
 	}
 	return out
 }
+
+// checkNotifyLoopsVisitAll: a notification loop (a range loop whose body takes a subscriber's
+// execution lock) reaches every subscriber of the snapshot: a subscriber that cannot be locked (it
+// unsubscribed meanwhile) is skipped, the loop is not left - no break, goto or return in its body.
+func checkNotifyLoopsVisitAll(r *Reporter, p *Prog, pkg string) {
+	const rule = "notify/loop-visits-every-subscriber"
+	n := 0
+	for _, fd := range p.AllFuncDecls(pkg) {
+		if fd.Body == nil || strings.HasSuffix(p.Fset.Position(fd.Pos()).Filename, "_test.go") {
+			continue
+		}
+		ast.Inspect(fd.Body, func(m ast.Node) bool {
+			rs, ok := m.(*ast.RangeStmt)
+			if !ok {
+				return true
+			}
+			locks := containsMatch(rs.Body, func(c ast.Node) bool {
+				ce, ok := c.(*ast.CallExpr)
+				if !ok {
+					return false
+				}
+				se, ok := ast.Unparen(ce.Fun).(*ast.SelectorExpr)
+				return ok && se.Sel.Name == "LockExecution"
+			})
+			if !locks {
+				return true
+			}
+			n++
+			bad := ""
+			var walk func(nd ast.Node, breakLeaves bool)
+			walk = func(nd ast.Node, breakLeaves bool) {
+				ast.Inspect(nd, func(c ast.Node) bool {
+					if c == nil || c == nd {
+						return true
+					}
+					switch x := c.(type) {
+					case *ast.FuncLit:
+						return false
+					case *ast.ForStmt, *ast.RangeStmt, *ast.SwitchStmt, *ast.TypeSwitchStmt, *ast.SelectStmt:
+						walk(x, false)
+						return false
+					case *ast.BranchStmt:
+						if bad == "" && (x.Tok == token.GOTO || x.Tok == token.BREAK && (breakLeaves || x.Label != nil)) {
+							bad = p.posStr(x.Pos()) + ": " + x.Tok.String()
+						}
+					case *ast.ReturnStmt:
+						if bad == "" {
+							bad = p.posStr(x.Pos()) + ": return"
+						}
+					}
+					return true
+				})
+			}
+			walk(rs.Body, true)
+			key := funcKey(pkg, fd) + " notification loop"
+			if bad != "" {
+				r.Fail(rule, key, bad, "the notification loop is left early ("+bad+"): the subscribers behind that point of the snapshot never see this update")
+			} else {
+				r.Pass(rule, key, p.posStr(rs.Pos()), "every subscriber of the snapshot is reached (skipped at most, by not invoking it)")
+			}
+			return true
+		})
+	}
+	if n == 0 {
+		r.Unresolved(rule, pkg, "no notification loop (range loop taking LockExecution) found (vacuous)")
+	}
+}
+
+// checkEndAccessor: an operation on ONE end of a sequence does not consult the other end's pointer:
+// Tail reads o.tail only, Head o.head only; MoveToFront decides "already there" by the front pointer,
+// MoveToBack by the back pointer. (A guard copied from the sibling makes MoveToFront(Back()) a no-op;
+// Tail returns the last key with the first value.)
+func checkEndAccessor(r *Reporter, p *Prog, pkg, typ, method, forbiddenSuffix, why string) {
+	const rule = "accessor/end-consistent"
+	key := pkg + "." + typ + "." + method
+	fd := p.FuncDecl(pkg, typ, method)
+	if fd == nil || fd.Body == nil {
+		r.Unresolved(rule, key, "method not found")
+		return
+	}
+	bad := ""
+	ast.Inspect(fd.Body, func(m ast.Node) bool {
+		if se, ok := m.(*ast.SelectorExpr); ok && bad == "" && strings.HasSuffix(exprKey(se), forbiddenSuffix) {
+			bad = p.posStr(se.Pos())
+		}
+		return true
+	})
+	if bad != "" {
+		r.Fail(rule, key, bad, method+" consults "+strings.TrimPrefix(forbiddenSuffix, ".")+": "+why)
+	} else {
+		r.Pass(rule, key, p.posStr(fd.Pos()), method+" does not consult "+strings.TrimPrefix(forbiddenSuffix, "."))
+	}
+}
+
+// checkDiffBeforeReplace: the reactive set's replace reports "added = new minus OLD contents": the
+// membership of the new elements is tested against the value BEFORE the value is replaced. Computed
+// afterwards every new element is already a member and nothing is reported added - a subscriber that
+// folds the reported mutations no longer reproduces the set.
+func checkDiffBeforeReplace(r *Reporter, p *Prog, pkg, typ, method string) {
+	const rule = "set/added-computed-against-old-contents"
+	key := pkg + "." + typ + "." + method
+	f := p.CFGOf(pkg, typ, method)
+	if f == nil {
+		r.Unresolved(rule, key, "method not found")
+		return
+	}
+	info := p.Pkg(pkg).TypesInfo
+	isValueCall := func(n ast.Node, name string) bool {
+		c, ok := n.(*ast.CallExpr)
+		if !ok {
+			return false
+		}
+		se, ok := ast.Unparen(c.Fun).(*ast.SelectorExpr)
+		return ok && se.Sel.Name == name && fieldSel(info, se.X, "value")
+	}
+	reps := f.Calls(func(c *ast.CallExpr) bool { return isValueCall(c, "Replace") })
+	// the readers of the old membership: calls that test value.Has, directly or in a function literal they are handed
+	readsOldCall := func(n ast.Node) bool {
+		c, ok := n.(*ast.CallExpr)
+		if !ok || isValueCall(n, "Replace") {
+			return false
+		}
+		hit := false
+		ast.Inspect(c, func(m ast.Node) bool { // function literals included: the test sits in the filter's predicate
+			if m != nil && isValueCall(m, "Has") {
+				hit = true
+			}
+			return !hit
+		})
+		return hit
+	}
+	readsOld := func(n ast.Node) bool { return readsOldCall(n) || containsMatch(n, readsOldCall) }
+	readers := f.Calls(func(c *ast.CallExpr) bool { return readsOldCall(c) })
+	if len(reps) == 0 || len(readers) == 0 {
+		r.Advise(rule + ": " + key + ": no value.Replace / value.Has pair found (the rule does not apply to this shape)")
+		return
+	}
+	for _, rc := range reps {
+		rp, ok := f.PointOf(rc)
+		if !ok {
+			r.Unresolved(rule, key, "value.Replace not on the graph")
+			continue
+		}
+		if w, found := f.PathFromEntryAvoiding(rp, readsOld, nil); found {
+			r.Fail(rule, key, f.PosOf(rp), "the value is replaced on a path on which the membership of the new elements has not been tested yet: tested afterwards, every new element is already a member and none is reported as added", w...)
+		} else {
+			r.Pass(rule, key, f.PosOf(rp), "the added elements are determined against the old contents before value.Replace")
+		}
+	}
+}
+
+// checkAbsentImpliesNoCachedValue: the TypedValue cache keeps "known absent" and "cached value"
+// consistent: wherever the presence flag is set to the false constant, the cached value is nil - it was
+// just tested nil, or it is set to nil on the same path. (Compute trusts a cached value without looking
+// at the flag: after a Delete that left it in place it computes from the deleted value.)
+func checkAbsentImpliesNoCachedValue(r *Reporter, p *Prog, pkg, typ string) {
+	const rule = "cache/absent-implies-no-cached-value"
+	info := p.Pkg(pkg).TypesInfo
+	n := 0
+	for _, fd := range p.Methods(pkg, typ) {
+		if fd.Body == nil {
+			continue
+		}
+		var f *FuncCFG
+		isNilAssign := func(nd ast.Node) bool {
+			as, ok := nd.(*ast.AssignStmt)
+			if !ok {
+				return false
+			}
+			for i, l := range as.Lhs {
+				if fieldSel(info, l, "valueCached") && i < len(as.Rhs) && isNil(info, as.Rhs[i]) {
+					return true
+				}
+			}
+			return false
+		}
+		hasFalse := func(nd ast.Node) bool {
+			as, ok := nd.(*ast.AssignStmt)
+			if !ok {
+				return false
+			}
+			for i, l := range as.Lhs {
+				if fieldSel(info, l, "hasCached") && i < len(as.Rhs) && strings.HasSuffix(exprKey(as.Rhs[i]), "falsePtr") {
+					return true
+				}
+			}
+			return false
+		}
+		if !containsMatch(fd.Body, hasFalse) {
+			continue
+		}
+		f = newFuncCFGPlain(p, info, fd.Body, funcKey(pkg, fd))
+		nilEdges := f.RelEdgesAt(func(rel Rel) bool {
+			return rel.Op == "==" && (strings.HasSuffix(rel.L, ".valueCached") && rel.R == "nil" || strings.HasSuffix(rel.R, ".valueCached") && rel.L == "nil")
+		})
+		isNilEdge := func(e Edge) bool {
+			for _, ne := range nilEdges {
+				if ne == e {
+					return true
+				}
+			}
+			return false
+		}
+		for _, pt := range f.Find(hasFalse) {
+			n++
+			key := funcKey(pkg, fd) + " hasCached=false"
+			_, before := f.PathFromEntryAvoiding(pt, isNilAssign, isNilEdge)
+			_, after := f.PathToExitAvoiding(pt, isNilAssign)
+			if before && after {
+				r.Fail(rule, key, f.PosOf(pt), "the value is marked absent while a cached value may still be in place (not tested nil before, not cleared on the same path): Compute trusts the cached value without looking at the flag and computes from a deleted value")
+			} else {
+				r.Pass(rule, key, f.PosOf(pt), "the cached value is nil wherever the value is marked absent")
+			}
+		}
+	}
+	if n == 0 {
+		r.Advise(rule + ": " + pkg + "." + typ + ": no assignment hasCached = &falsePtr found (the rule does not apply to this shape)")
+	}
+}
